@@ -6,12 +6,19 @@ import mir as M
 INTERP = "interpreter::Interpreter"
 
 
-def field_of_ref(f, local):
+def field_of_ref(f, local, _depth=0):
     """(adt, variant, field) of the place a reference local was borrowed from"""
     d = f.defs().get(local, [])
     if len(d) == 1 and d[0][1] != "T" and d[0][2][0] == "ref":
-        fl = F.place_fields(d[0][2][2])
-        return fl[-1] if fl else None
+        pl = d[0][2][2]
+        fl = F.place_fields(pl)
+        if fl:
+            return fl[-1]
+        if pl[1] == ["*"] and _depth < 4:
+            return field_of_ref(f, pl[0], _depth + 1)  # reborrow `&mut *r`
+        return None
+    if len(d) == 1 and d[0][1] != "T" and d[0][2][0] == "use" and d[0][2][1][0] in ("c", "m") and not d[0][2][1][1][1] and _depth < 4:
+        return field_of_ref(f, d[0][2][1][1][0], _depth + 1)
     return None
 
 
